@@ -139,6 +139,37 @@ def stdout_fault_task(task):
     return {"runs": runs, "bad": bad, "key": (task["i"], len(keep))}
 
 
+def cross_volume_world(seed, i):
+    """trash-restore of a directory tree from the home trash (home on its own volume) to a location on another volume: the
+    move is a copy and a delete, child by child - in every state between two calls the entry is whole in the trash or whole
+    at its place, and a payload under files/ has its info file"""
+    from ..model import W
+    from ..sandbox import MODEL_ROOT as R
+    rng = task_rng("C15x", seed, i)
+    w = W()
+    w.mount(R + b"/home")
+    home = w.dir(R + b"/home/u")
+    t = home + b"/.local/share/Trash"
+    w.dir(t, 0o700)
+    w.dir(t + b"/files", 0o700)
+    w.dir(t + b"/info", 0o700)
+    nm = rng.choice([b"tree", b"a b"])
+    loc = R + b"/w/" + nm
+    w.dir(R + b"/w")
+    w.file(t + b"/info/" + nm + b".trashinfo", b"[Trash Info]\nPath=" + loc.replace(b" ", b"%20") + b"\nDeletionDate=2021-01-01T00:00:00\n", 0o600)
+    pay = t + b"/files/" + nm
+    w.dir(pay, 0o750)
+    for c in [b"a", b"b", b"sub/c", b"sub/deep/d"][:rng.choice([2, 3, 4])]:
+        w.file(pay + b"/" + c, b"child " + c)
+    if rng.random() < 0.5:
+        w.link(pay + b"/lnk", b"a")
+    entries = [{"tdir": t, "name": nm, "loc": loc, "rec": loc, "date": "2021-01-01T00:00:00", "base": None}]
+    world = w.world(env={"HOME": home}, uid=1000, cwd=R, cmd="restore", opts={"path": b"/", "sort": "date"}, args=[], stdin=b"0\n",
+                    meta={"entries": entries, "tdirs": [(t, None)], "profile": "cross-volume", "payload_kinds": ["tree"], "sentinels": []})
+    world["argv"] = cmd_argv(world)
+    return world
+
+
 def same_inode_world(seed, i):
     """trash-restore where what stands at the original location is the payload itself under another name (a hard link of it,
     a symbolic link to it), with and without --overwrite: rename(2) between two names of one inode does nothing and reports
@@ -178,6 +209,9 @@ def run(tier, seed):
     info = audit("C15")
     results = run_tasks(eval_task, tasks_for("C15", seed, CFG, 150 if tier == "quick" else 2500))
     absorb(ck, results, CFG)
+    x_cfg = dict(CFG, tweak=None, interrupt_sweep=0)
+    absorb(ck, run_tasks(eval_task, [{"pid": "C15", "seed": seed, "i": 1, "cfg": x_cfg, "world": cross_volume_world(seed, i)}
+                                     for i in range(6 if tier == "quick" else 40)]), x_cfg)
     same_cfg = dict(CFG, tweak=None, violations=("crash15", "effects"))
     absorb(ck, run_tasks(eval_task, [{"pid": "C15", "seed": seed, "i": 0, "cfg": same_cfg, "world": same_inode_world(seed, i)}
                                      for i in range(8 if tier == "quick" else 40)]), same_cfg)
